@@ -294,11 +294,13 @@ def rule_f2_f5(ck, prog, S):
     ck.analysed(proc, parse)
 
 
-def rule_f6(ck, prog, S):
+def fresh_unit_state(ck, prog, S, rule, select, message):
+    """every transient per-unit field tested by a branch that guards one of the selected nodes
+    of processCommand must have been stored for this unit (shared by C06-F6 and C05-E7)"""
     from sa import ctx as X
     from .c09 import top_field
     spec = K.load_spec("context_fields.json")
-    got = K.need(ck, prog, "C06-F6", "processCommand", "SCPI_Parse", "findCommandHeader")
+    got = K.need(ck, prog, rule, "processCommand", "SCPI_Parse", "findCommandHeader")
     if not got:
         return
     proc, parse, find = got
@@ -306,18 +308,17 @@ def rule_f6(ck, prog, S):
     pgp, stp = X.must_stored(parse, reset_calls=("scpiParser_detectProgramMessageUnit",), callee_summaries=summ)
     pcs = list(parse.calls("processCommand"))
     if not pcs:
-        ck.anchor_lost("C06-F6", "processCommand call")
+        ck.anchor_lost(rule, "processCommand call")
         return
     s1 = stp.get(pgp.before(pcs[0]), frozenset())
     pgc, stc = X.must_stored(proc)
     al, resolve = X.aliases(proc)
-    targets = [n for n, t in C.stores(proc) if (t.get("path") or "").endswith("->first_output")]
-    targets += [c for c in proc.calls("writeData") if str_arg(c, 1) == ";"]
+    seen = set()
     k = 0
-    for node in K.ordinal_sites(targets):
+    for node in K.ordinal_sites(select(proc)):
         facts = K.facts_at(S, proc, node) or []
-        s2 = stc.get(pgc.before(node), frozenset())
         for atom, pol in facts:
+            s2 = stc.get(pgc.before(atom), frozenset()) if pgc.before(atom) else frozenset()
             for sub in atom.walk():
                 p = sub.get("path")
                 if sub.k != "MemberExpr" or not p:
@@ -328,16 +329,25 @@ def rule_f6(ck, prog, S):
                 full = X.norm(resolve(p))
                 if spec["fields"].get(top_field(full)) != "transient-unit":
                     continue
-                st = K.site(proc, "responded-decision(%s)" % full, k)
+                if (sub.id, full) in seen:
+                    continue
+                seen.add((sub.id, full))
+                st = K.site(proc, "decision-reads(%s)" % full, k)
                 k += 1
                 if X.covers(full, set(s1) | set(s2)):
-                    ck.holds("C06-F6", st, K.loc(proc, atom), "`%s` re-established for this unit before it is tested" % full)
+                    ck.holds(rule, st, K.loc(proc, atom), "`%s` re-established for this unit before it is tested" % full)
                 else:
-                    ck.violated("C06-F6", st, K.loc(proc, atom),
-                                "whether this unit counts as having responded is decided from `%s`, which is not "
-                                "re-established for this unit on every path: an earlier unit's value suppresses the "
-                                "';' between responses and the final terminator" % full)
-    ck.floor("C06-F6", 1)
+                    ck.violated(rule, st, K.loc(proc, atom), message % full)
+    ck.floor(rule, 1)
+
+
+def rule_f6(ck, prog, S):
+    fresh_unit_state(ck, prog, S, "C06-F6",
+                     lambda proc: [n for n, t in C.stores(proc) if (t.get("path") or "").endswith("->first_output")] +
+                     [c for c in proc.calls("writeData") if str_arg(c, 1) == ";"],
+                     "whether this unit counts as having responded is decided from `%s`, which is not "
+                     "re-established for this unit on every path: an earlier unit's value suppresses the "
+                     "';' between responses and the final terminator")
 
 
 def rule_f3_f4(ck, prog, S):
